@@ -85,10 +85,3 @@ Theorem C09_uniform_scaling_of_the_rotational_velocity_refuted :
 Proof. exact uniform_scaling_is_not. Qed.
 Print Assumptions C09_uniform_scaling_of_the_rotational_velocity_refuted.
 
-(* translator tie: the data-flow graph (which output feeds which input) of canonical models of the public groups, regenerated
-   from the live models on every run, is the reviewed one; a changed or dropped promotion / connection breaks this obligation *)
-From Coq Require Import List String.
-From OAS Require Import Wiring WiringReviewed WiringProofs.
-Theorem C09_group_wiring_is_the_reviewed_one : gen_wiring = reviewed_wiring.
-Proof. exact wiring_reviewed. Qed.
-Print Assumptions C09_group_wiring_is_the_reviewed_one.
